@@ -3,6 +3,7 @@ package main
 // Forward VC generation for one function under contract.
 
 import (
+	"regexp"
 	"fmt"
 	"go/constant"
 	"go/token"
@@ -1129,7 +1130,9 @@ func (ex *Exec) loopBack(li *loopInfo, from *ssa.BasicBlock) {
 // check: an implicit runtime check. In safe functions an obligation, otherwise an assumption
 // (the path continues only if the check passed).
 func (ex *Exec) check(kind, cond string, p token.Pos, what string) {
-	if ex.con != nil && ex.con.Flags["safe"] {
+	// "safe": every implicit runtime check is an obligation; "bounds": only the index, slice and
+	// allocation-size checks (nil dereferences and type assertions are assumed to pass)
+	if ex.con != nil && (ex.con.Flags["safe"] || ex.con.Flags["bounds"] && kind != "nil" && kind != "typeassert") {
 		lbl := kind + ":" + what
 		if len(lbl) > 70 {
 			lbl = lbl[:70]
@@ -1253,7 +1256,23 @@ func (ex *Exec) execInstr(in ssa.Instruction) {
 		ln := ex.get(in.Len)
 		cp := ex.get(in.Cap)
 		et := in.Type().Underlying().(*types.Slice).Elem()
-		ex.check("makeslice", fmt.Sprintf("(and (<= 0 %s) (<= %s %s))", ln.T, ln.T, cp.T), in.Pos(), "len")
+		// the runtime's makeslice check: 0 <= len <= cap and cap*elemsize <= maxAlloc (2^48 on 64-bit)
+		esz := types.SizesFor("gc", "amd64").Sizeof(et)
+		if esz < 1 {
+			esz = 1
+		}
+		okc := fmt.Sprintf("(and (<= 0 %s) (<= %s %s) (<= (* %s %d) 281474976710656))", ln.T, ln.T, cp.T, cp.T, esz)
+		if ex.abruptMode() && !(ex.con != nil && (ex.con.Flags["safe"] || ex.con.Flags["bounds"])) {
+			// in a function that handles panics the failed check is a path of its own
+			q := e.define("mkfail", "Bool", "(not "+okc+")")
+			cond := and2(ex.curCond(), q)
+			pv := ex.freshPayload()
+			ex.e.assume(fmt.Sprintf("(=> %s ((_ is box_other) %s))", cond, pv.T))
+			ex.addAbrupt(cond, ex.st, pv, in.Pos())
+			ex.continueWithout(q)
+		} else {
+			ex.check("makeslice", okc, in.Pos(), "len")
+		}
 		if _, isS := isStruct(et); !isS {
 			h := e.elemHeap(et)
 			ex.st.set(h, fmt.Sprintf("(store %s %s %s)", ex.st.get(h), a, e.constArray(e.sortOf(et), e.zeroValue(et))))
@@ -1809,6 +1828,8 @@ func (ex *Exec) heapsOfType(t types.Type) []string {
 	return out
 }
 
+var payloadNilRe = regexp.MustCompile(`^(\(not )?\(= panicv![0-9]+ nilbox\)\)?$`)
+
 // trivialBool decides the few closed conditions that arise from recover() == nil / != nil.
 func trivialBool(e *Emitter, t string) string {
 	t = strings.TrimSpace(t)
@@ -1823,6 +1844,13 @@ func trivialBool(e *Emitter, t string) string {
 	case "(= nilbox nilbox)":
 		return "true"
 	case "(not (= nilbox nilbox))":
+		return "false"
+	}
+	// a payload constant (freshPayload) is never nil
+	if m := payloadNilRe.FindStringSubmatch(t); m != nil {
+		if m[1] != "" {
+			return "true" // (not (= panicv nilbox))
+		}
 		return "false"
 	}
 	return ""
